@@ -46,6 +46,8 @@ class _is_child:
         return {'cls': TokenCategoryHierarchyMapper, 'parent': g.enum('parent', TokenCategory),
                 'child': g.enum('child', TokenCategory), 'tree': tree_param(g)}
 
+    modifies = ()
+
     def requires(parent, tree):
         return parent in tree
 
@@ -61,6 +63,8 @@ class _nodes:
     def inputs(g):
         return {'cls': TokenCategoryHierarchyMapper, 'tree': tree_param(g)}
 
+    modifies = ()
+
     def post_all_nodes(result, tree):
         return result == sub_name_of(tree)
 
@@ -72,6 +76,8 @@ class _nodes:
 class _find_subtree:
     def inputs(g):
         return {'cls': TokenCategoryHierarchyMapper, 'tree': tree_param(g), 'parent': g.enum('parent', TokenCategory)}
+
+    modifies = ()
 
     def post_found(result, tree, parent):
         return forall(members(TokenCategory), lambda m: implies(parent == m, result is subdict_for(tree, m)))
@@ -88,6 +94,8 @@ class _leaves:
     def inputs(g):
         return {'cls': TokenCategoryHierarchyMapper, 'tree': tree_param(g)}
 
+    modifies = ()
+
     def post_leaves(result, tree):
         return result == {c for c in sub_name_of(tree) if len(kids(c)) == 0}
 
@@ -102,6 +110,8 @@ class is_child:
     def inputs(g):
         return {'cls': TokenCategoryHierarchyMapper, 'parent': g.enum('parent', TokenCategory), 'child': g.enum('child', TokenCategory)}
 
+    modifies = ()
+
     def post_descendant_or_self(result, parent, child):
         return iff(result, disj(parent == child, is_desc(parent, child)))
 
@@ -114,6 +124,8 @@ class children:
     def inputs(g):
         return {'cls': TokenCategoryHierarchyMapper, 'parent': g.enum('parent', TokenCategory)}
 
+    modifies = ()
+
     def post_direct_children(result, parent):
         return forall(members(TokenCategory), lambda m: implies(parent == m, result == kids(m)))
 
@@ -122,6 +134,8 @@ class children:
 class nodes:
     def inputs(g):
         return {'cls': TokenCategoryHierarchyMapper, 'parent': g.enum('parent', TokenCategory)}
+
+    modifies = ()
 
     def post_descendants(result, parent):
         return forall(members(TokenCategory), lambda m: implies(parent == m, result == desc(m)))
@@ -138,6 +152,8 @@ class leaves:
     def inputs(g):
         return {'cls': TokenCategoryHierarchyMapper, 'target': g.enum('target', TokenCategory)}
 
+    modifies = ()
+
     def post_leaves(result, target):
         return forall(members(TokenCategory), lambda m: implies(target == m, result == leaves_below(m)))
 
@@ -146,6 +162,8 @@ class leaves:
 class mapper_all:
     def inputs(g):
         return {'cls': TokenCategoryHierarchyMapper}
+
+    modifies = ()
 
     def post_everything(result):
         return conj(result == all_cats(), result == set(members(TokenCategory)))
@@ -158,6 +176,8 @@ class mapper_all:
 class tree_rendering:
     def inputs(g):
         return {'cls': TokenCategoryHierarchyMapper}
+
+    modifies = ()
 
     def post_documented_text(result):
         return result == DOC_TREE_TEXT
@@ -201,6 +221,8 @@ class _validate_include:
     def inputs(g):
         return {'cls': TokenCategoryHierarchyMapper, 'include': selector(g, 'include')}
 
+    modifies = ()
+
     def post_set(result, include):
         return result == as_set(include, set(members(TokenCategory)))
 
@@ -215,6 +237,8 @@ class _validate_include:
 class _validate_exclude:
     def inputs(g):
         return {'cls': TokenCategoryHierarchyMapper, 'exclude': selector(g, 'exclude')}
+
+    modifies = ()
 
     def post_set(result, exclude):
         return result == as_set(exclude, set())
@@ -233,6 +257,8 @@ class valid:
     def inputs(g):
         return {'cls': TokenCategoryHierarchyMapper, 'include': selector(g, 'include'), 'exclude': selector(g, 'exclude')}
 
+    modifies = ()
+
     def post_selected_set(result, include, exclude):
         return result == sel(as_set(include, set(members(TokenCategory))), as_set(exclude, set()))
 
@@ -248,6 +274,8 @@ class _match:
     def inputs(g):
         return {'cls': TokenCategoryHierarchyMapper, 'category': g.enum('category', TokenCategory),
                 'include': g.enum_set('include', TokenCategory), 'exclude': g.enum_set('exclude', TokenCategory)}
+
+    modifies = ()
 
     def post_selected(result, category, include, exclude):
         s = sel(include, exclude)
@@ -265,6 +293,8 @@ class match:
         return {'cls': TokenCategoryHierarchyMapper, 'category': g.enum('category', TokenCategory),
                 'include': selector(g, 'include'), 'exclude': selector(g, 'exclude')}
 
+    modifies = ()
+
     def post_selected(result, category, include, exclude):
         s = sel(as_set(include, set(members(TokenCategory))), as_set(exclude, set()))
         return iff(result, exists(members(TokenCategory), lambda m: conj(disj(m == category, is_desc(category, m)), m in s)))
@@ -279,6 +309,8 @@ class cat_is_child:
     def inputs(g):
         return {'cls': TokenCategory, 'parent': g.enum('parent', TokenCategory), 'child': g.enum('child', TokenCategory)}
 
+    modifies = ()
+
     def post_descendant_or_self(result, parent, child):
         return iff(result, disj(parent == child, is_desc(parent, child)))
 
@@ -287,6 +319,8 @@ class cat_is_child:
 class cat_children:
     def inputs(g):
         return {'cls': TokenCategory, 'target': g.enum('target', TokenCategory)}
+
+    modifies = ()
 
     def post_direct_children(result, target):
         return forall(members(TokenCategory), lambda m: implies(target == m, result == kids(m)))
@@ -297,6 +331,8 @@ class cat_nodes:
     def inputs(g):
         return {'cls': TokenCategory, 'target': g.enum('target', TokenCategory)}
 
+    modifies = ()
+
     def post_descendants(result, target):
         return forall(members(TokenCategory), lambda m: implies(target == m, result == desc(m)))
 
@@ -306,6 +342,8 @@ class cat_leaves:
     def inputs(g):
         return {'cls': TokenCategory, 'target': g.enum('target', TokenCategory)}
 
+    modifies = ()
+
     def post_leaves(result, target):
         return forall(members(TokenCategory), lambda m: implies(target == m, result == leaves_below(m)))
 
@@ -314,6 +352,8 @@ class cat_leaves:
 class cat_valid:
     def inputs(g):
         return {'cls': TokenCategory, 'include': selector(g, 'include'), 'exclude': selector(g, 'exclude')}
+
+    modifies = ()
 
     def post_selected_set(result, include, exclude):
         return result == sel(as_set(include, set(members(TokenCategory))), as_set(exclude, set()))
@@ -328,6 +368,8 @@ class cat_match:
         return {'cls': TokenCategory, 'target': g.enum('target', TokenCategory),
                 'include': selector(g, 'include'), 'exclude': selector(g, 'exclude')}
 
+    modifies = ()
+
     def post_selected(result, target, include, exclude):
         s = sel(as_set(include, set(members(TokenCategory))), as_set(exclude, set()))
         return iff(result, exists(members(TokenCategory), lambda m: conj(disj(m == target, is_desc(target, m)), m in s)))
@@ -341,6 +383,8 @@ class cat_all:
     def inputs(g):
         return {'cls': TokenCategory}
 
+    modifies = ()
+
     def post_everything(result):
         return result == all_cats()
 
@@ -349,6 +393,8 @@ class cat_all:
 class cat_tree:
     def inputs(g):
         return {'cls': TokenCategory}
+
+    modifies = ()
 
     def post_documented_text(result):
         return result == DOC_TREE_TEXT
